@@ -21,6 +21,7 @@
 package engine
 
 import (
+	"fmt"
 	"go/token"
 	"reflect"
 
@@ -107,7 +108,9 @@ func (r SliceReplacer) Replace(d data.Data, cl Changelog, pos token.Pos) (reflec
 		if err != nil {
 			return reflect.Value{}, err
 		}
-		v.Index(i).Set(item)
+		if err := setValue(v.Index(i), item); err != nil {
+			return reflect.Value{}, err
+		}
 	}
 
 	return v, nil
@@ -143,7 +146,9 @@ func (r StructReplacer) Replace(d data.Data, cl Changelog, pos token.Pos) (refle
 		if err != nil {
 			return reflect.Value{}, err
 		}
-		v.Field(i).Set(fv)
+		if err := setValue(v.Field(i), fv); err != nil {
+			return reflect.Value{}, err
+		}
 	}
 	return v, nil
 }
@@ -173,7 +178,9 @@ func (r InterfaceReplacer) Replace(d data.Data, cl Changelog, pos token.Pos) (re
 	}
 
 	v := reflect.New(r.Type).Elem()
-	v.Set(x)
+	if err := setValue(v, x); err != nil {
+		return reflect.Value{}, err
+	}
 	return v, nil
 }
 
@@ -183,4 +190,20 @@ type ValueReplacer struct{ Value reflect.Value }
 // Replace replaces a value as-is.
 func (r ValueReplacer) Replace(data.Data, Changelog, token.Pos) (reflect.Value, error) {
 	return r.Value, nil
+}
+
+// setValue stores src in dst. Where reflect.Value.Set would panic because the
+// generated value does not fit the target (for example, an expression
+// metavariable that matched a function call used where the syntax only
+// allows an identifier), setValue returns an error instead.
+func setValue(dst, src reflect.Value) error {
+	if !src.IsValid() || !src.Type().AssignableTo(dst.Type()) {
+		have := "nothing"
+		if src.IsValid() {
+			have = src.Type().String()
+		}
+		return fmt.Errorf("cannot use generated %v where %v is required", have, dst.Type())
+	}
+	dst.Set(src)
+	return nil
 }
